@@ -14,6 +14,7 @@ import (
 	"fmt"
 	"io"
 	"regexp"
+	"sort"
 	"strconv"
 	"strings"
 	"testing"
@@ -44,6 +45,38 @@ type bufSpec struct {
 	k     int
 	data  []byte
 	items []item
+	// kind W: WithErrorHandler(inner, a handler of its own answering with hin) - a stacked backend
+	inner *bufSpec
+	hin   []bufSpec
+}
+
+// all returns the buffer and every buffer nested in it.
+func (b bufSpec) all() []bufSpec {
+	res := []bufSpec{b}
+	if b.kind == 'W' {
+		res = append(res, b.inner.all()...)
+		for _, r := range b.hin {
+			res = append(res, r.all()...)
+		}
+	}
+	return res
+}
+
+func (c caseSpec) allBufs() []bufSpec {
+	res := c.base.all()
+	for _, r := range c.resps {
+		res = append(res, r.all()...)
+	}
+	return res
+}
+
+func (c caseSpec) nested() bool {
+	for _, b := range c.allBufs() {
+		if b.kind == 'W' {
+			return true
+		}
+	}
+	return false
 }
 
 type caseSpec struct {
@@ -60,6 +93,12 @@ func (b bufSpec) String() string {
 		return fmt.Sprintf("%c:%s", b.kind, hx.Hex(b.data))
 	case 'E', 'F':
 		return fmt.Sprintf("%c:%d", b.kind, b.k)
+	case 'W':
+		ws := []string{b.inner.String()}
+		for _, r := range b.hin {
+			ws = append(ws, r.String())
+		}
+		return "W[" + strings.Join(ws, "|") + "]"
 	}
 	if len(b.items) == 0 {
 		return fmt.Sprintf("%c:_", b.kind)
@@ -92,6 +131,37 @@ func unhex(s string) ([]byte, bool) {
 }
 
 func parseBuf(w string) (bufSpec, bool) {
+	if strings.HasPrefix(w, "W[") && strings.HasSuffix(w, "]") {
+		var parts []string
+		depth, start := 0, 2
+		for i := 2; i < len(w)-1; i++ {
+			switch w[i] {
+			case '[':
+				depth++
+			case ']':
+				depth--
+			case '|':
+				if depth == 0 {
+					parts = append(parts, w[start:i])
+					start = i + 1
+				}
+			}
+		}
+		parts = append(parts, w[start:len(w)-1])
+		b := bufSpec{kind: 'W'}
+		for i, x := range parts {
+			pb, ok := parseBuf(x)
+			if !ok || (i == 0 && pb.kind == 'F') {
+				return b, false
+			}
+			if i == 0 {
+				b.inner = &pb
+			} else {
+				b.hin = append(b.hin, pb)
+			}
+		}
+		return b, b.inner != nil
+	}
 	p := strings.SplitN(w, ":", 2)
 	if len(p) != 2 || len(p[0]) != 1 {
 		return bufSpec{}, false
@@ -174,6 +244,7 @@ type env struct {
 	emitted []int // tags of failures returned by scripted sources, in order
 	opens   int
 	closes  int
+	inner   []*handler // handlers of stacked buffers (kind W), in order of construction
 }
 
 func newEnv(c caseSpec) *env {
@@ -263,24 +334,30 @@ func (e *env) build(b bufSpec) buffer.Buffer {
 	case 'R':
 		e.opens++
 		return buffer.NewCASBufferFromReader(e.dig, &readSrc{e: e, items: cloneItems(b.items)}, src)
+	case 'W':
+		h := &handler{e: e, base: *b.inner, resps: b.hin}
+		e.inner = append(e.inner, h)
+		return buffer.WithErrorHandler(e.build(*b.inner), h)
 	}
 	panic("bad buffer kind")
 }
 
 type handler struct {
-	e    *env
-	idx  int
-	log  []error
-	done int
+	e     *env
+	base  bufSpec   // the buffer the handler was attached to
+	resps []bufSpec // its answers
+	idx   int
+	log   []error
+	done  int
 }
 
 func (h *handler) OnError(err error) (buffer.Buffer, error) {
 	h.log = append(h.log, err)
-	if h.idx >= len(h.e.c.resps) {
+	if h.idx >= len(h.resps) {
 		h.idx++
 		return nil, errExhausted
 	}
-	r := h.e.c.resps[h.idx]
+	r := h.resps[h.idx]
 	h.idx++
 	if r.kind == 'F' {
 		return nil, h.e.errOf(r.k)
@@ -381,7 +458,7 @@ func atoi(s string) int { v, _ := strconv.Atoi(s); return v }
 
 func runReal(c caseSpec) (o obs) {
 	e := newEnv(c)
-	h := &handler{e: e}
+	h := &handler{e: e, base: c.base, resps: c.resps}
 	o.e, o.h, o.n = e, h, -1
 	var result string
 	func() {
@@ -541,7 +618,7 @@ func (c caseSpec) trusted() bool {
 	if len(c.d) != c.size {
 		return false
 	}
-	for _, b := range append([]bufSpec{c.base}, c.resps...) {
+	for _, b := range c.allBufs() {
 		if b.kind == 'B' && !bytes.Equal(b.data, c.d) {
 			return false
 		}
@@ -554,7 +631,7 @@ func (c caseSpec) consistent() bool {
 	if !c.trusted() {
 		return false
 	}
-	for _, b := range append([]bufSpec{c.base}, c.resps...) {
+	for _, b := range c.allBufs() {
 		var all []byte
 		switch b.kind {
 		case 'S':
@@ -580,7 +657,7 @@ func (c caseSpec) sound() bool {
 	if !c.consistent() {
 		return false
 	}
-	for _, b := range append([]bufSpec{c.base}, c.resps...) {
+	for _, b := range c.allBufs() {
 		n := 0
 		switch b.kind {
 		case 'S':
@@ -611,46 +688,76 @@ func firstFail(b bufSpec) (int, bool) {
 	return 0, false
 }
 
+// failTags: the error values the handler of a stacked buffer may decide on.
+func failTags(b bufSpec) map[int]bool {
+	res := map[int]bool{}
+	for _, r := range b.hin {
+		if r.kind == 'F' {
+			res[r.k] = true
+		}
+	}
+	return res
+}
+
+// checkHandler: Done exactly once; every error offered belongs to the buffer in use at that
+// time, one per buffer; no call after an answer that is not a replacement.
+func checkHandler(e *env, h *handler, who string) (string, string) {
+	if h.done != 1 {
+		return "error handler was not told exactly once that the buffer is finished", fmt.Sprintf("%s: Done called %d times", who, h.done)
+	}
+	cur := h.base
+	for i, err := range h.log {
+		k, isTag := e.rev[err]
+		bad := false
+		switch cur.kind {
+		case 'E':
+			bad = !isTag || k != cur.k
+		case 'C', 'R':
+			fk, has := firstFail(cur)
+			bad = isTag && (!has || fk != k)
+		case 'W':
+			// a stacked buffer yields its own handler's decision, never a raw error from below
+			bad = isTag && !failTags(cur)[k]
+		default:
+			bad = isTag
+		}
+		if bad {
+			return "handler was offered an error that is not the error of the buffer in use", fmt.Sprintf("%s, call %d: got %s, buffer %s", who, i, e.tagOf(err), cur)
+		}
+		if (err == errExhausted && cur.kind != 'W') || err == errWriter || err == io.EOF {
+			return "handler was offered an error no buffer produced", fmt.Sprintf("%s, call %d: %s", who, i, e.tagOf(err))
+		}
+		if i < len(h.resps) && h.resps[i].kind != 'F' {
+			cur = h.resps[i]
+		} else if i != len(h.log)-1 {
+			return "handler was called again after it returned an error", fmt.Sprintf("%s: %d calls, answer %d was an error", who, len(h.log), i)
+		}
+	}
+	return "", ""
+}
+
 // oracle returns the violated statement ("" = none) and a detail.
 func oracle(c caseSpec, o obs) (string, string) {
 	h, e := o.h, o.e
 	if o.panicked != "" {
 		return "operation on a buffer with an error handler panicked", o.panicked
 	}
-	if h.done != 1 {
-		return "error handler was not told exactly once that the buffer is finished", fmt.Sprintf("Done called %d times", h.done)
+	if w, d := checkHandler(e, h, "the handler"); w != "" {
+		return w, d
 	}
-	// every error offered to the handler belongs to the buffer in use at that time, one per buffer
-	cur := c.base
-	for i, err := range h.log {
-		k, isTag := e.rev[err]
-		switch cur.kind {
-		case 'E':
-			if !isTag || k != cur.k {
-				return "handler was offered an error that is not the error of the buffer in use", fmt.Sprintf("call %d: got %s, buffer %s", i, e.tagOf(err), cur)
-			}
-		case 'C', 'R':
-			if fk, has := firstFail(cur); isTag && (!has || fk != k) {
-				return "handler was offered an error that is not the error of the buffer in use", fmt.Sprintf("call %d: got %s, buffer %s", i, e.tagOf(err), cur)
-			}
-		default:
-			if isTag {
-				return "handler was offered an error that is not the error of the buffer in use", fmt.Sprintf("call %d: got %s, buffer %s", i, e.tagOf(err), cur)
-			}
-		}
-		if err == errExhausted || err == errWriter || err == io.EOF {
-			return "handler was offered an error no buffer produced", fmt.Sprintf("call %d: %s", i, e.tagOf(err))
-		}
-		if i < len(c.resps) && c.resps[i].kind != 'F' {
-			cur = c.resps[i]
-		} else if i != len(h.log)-1 {
-			return "handler was called again after it returned an error", fmt.Sprintf("%d calls, answer %d was an error", len(h.log), i)
+	for i, ih := range e.inner {
+		if w, d := checkHandler(e, ih, fmt.Sprintf("the handler of stacked buffer #%d (%s)", i, ih.base)); w != "" {
+			return w, d
 		}
 	}
 	// every failure a source reported is offered exactly once, in order (unless the consumer stopped first)
 	seen := map[int]int{}
 	var logTags []int
-	for _, err := range h.log {
+	allLogs := append([]error{}, h.log...)
+	for _, ih := range e.inner {
+		allLogs = append(allLogs, ih.log...)
+	}
+	for _, err := range allLogs {
 		if k, ok := e.rev[err]; ok {
 			seen[k]++
 			logTags = append(logTags, k)
@@ -680,7 +787,16 @@ func oracle(c caseSpec, o obs) (string, string) {
 				}
 			}
 		}
-		if fmt.Sprint(srcTags) != fmt.Sprint(e.emitted) {
+		if len(e.inner) > 0 {
+			// stacked handlers: each failure is offered to exactly one handler (order is per handler)
+			sort.Ints(srcTags)
+			em := append([]int{}, e.emitted...)
+			sort.Ints(em)
+			if fmt.Sprint(srcTags) != fmt.Sprint(em) {
+				return "a read failure of an underlying buffer was not offered to a handler exactly once",
+					fmt.Sprintf("sources reported %v, handlers saw %v", e.emitted, logTags)
+			}
+		} else if fmt.Sprint(srcTags) != fmt.Sprint(e.emitted) {
 			return "a read failure of an underlying buffer was not offered to the handler exactly once in order",
 				fmt.Sprintf("sources reported %v, handler saw %v", e.emitted, logTags)
 		}
@@ -714,7 +830,7 @@ func oracle(c caseSpec, o obs) (string, string) {
 	}
 	// resuming at a wrong offset shows up as a spurious integrity error when all sources are fine
 	if c.sound() {
-		for _, err := range append(append([]error{}, h.log...), o.finalErr) {
+		for _, err := range append(append([]error{}, allLogs...), o.finalErr) {
 			if err == nil {
 				continue
 			}
@@ -889,6 +1005,50 @@ func exhaustive(L int, full bool, emit func(c caseSpec)) {
 		}
 		firsts = append(firsts, append([]bufSpec{{kind: 'C', items: []item{{data: d}, {data: []byte{7}}}}}, s...)) // too long
 	}
+	// stacked backends: the first replacement carries an error handler of its own, is resumed at
+	// the offset where the base failed and fails again further on
+	innerSeconds := [][]bufSpec{
+		{{kind: 'C', items: scriptOf(uniform(d, 1), -1, 0)}},
+		{{kind: 'R', items: scriptOf(uniform(d, L+1), -1, 0)}, {kind: 'F', k: 32}},
+		{{kind: 'F', k: 31}},
+		{},
+	}
+	outerSeconds := [][]bufSpec{{{kind: 'B', data: d}}, {}}
+	for _, kind := range []byte{'C', 'R'} {
+		for fp := -1; fp <= L; fp++ {
+			for _, is := range innerSeconds {
+				if fp < 0 && len(is) > 0 {
+					continue
+				}
+				for _, os := range outerSeconds {
+					w := bufSpec{kind: 'W', inner: &bufSpec{kind: kind, items: scriptOf(uniform(d, 1+fp%2), fp, 3)}, hin: is}
+					firsts = append(firsts, append([]bufSpec{w}, os...))
+				}
+			}
+		}
+	}
+	// ... and stacked base buffers with a few outer answers
+	outerFew := [][]bufSpec{{}, {{kind: 'F', k: 11}}, {{kind: 'B', data: d}}, {{kind: 'C', items: scriptOf(uniform(d, 1), -1, 0)}},
+		{{kind: 'W', inner: &bufSpec{kind: 'R', items: scriptOf(uniform(d, 2), L/2, 4)}, hin: []bufSpec{{kind: 'C', items: scriptOf(uniform(d, 1), -1, 0)}}}}}
+	for _, kind := range []byte{'C', 'R', 'E'} {
+		for fp := -1; fp <= L; fp++ {
+			if kind == 'E' && fp >= 0 {
+				continue
+			}
+			for _, is := range innerSeconds {
+				inner := bufSpec{kind: kind, k: 1, items: scriptOf(uniform(d, 2), fp, 1)}
+				if kind == 'E' {
+					inner.items = nil
+				}
+				w := bufSpec{kind: 'W', inner: &inner, hin: is}
+				for _, op := range ops {
+					for _, os := range outerFew {
+						emit(caseSpec{d: d, size: L, op: op, base: w, resps: os})
+					}
+				}
+			}
+		}
+	}
 	for _, base := range bases {
 		_, baseFails := firstFail(base)
 		baseFails = baseFails || base.kind == 'E' || (base.kind == 'S' && len(base.data) != L)
@@ -926,7 +1086,26 @@ func randomCase(r *hx.Rand) caseSpec {
 		}
 		return res
 	}
-	randBuf := func(mayFail bool) bufSpec {
+	var randBuf func(mayFail bool) bufSpec
+	depth := 0
+	randBuf = func(mayFail bool) bufSpec {
+		if depth < 2 && r.Chance(1, 6) {
+			depth++
+			inner := randBuf(true)
+			for inner.kind == 'F' {
+				inner = randBuf(true)
+			}
+			w := bufSpec{kind: 'W', inner: &inner}
+			for i, n := 0, r.Intn(3); i < n; i++ {
+				if r.Chance(1, 6) {
+					w.hin = append(w.hin, bufSpec{kind: 'F', k: nextTag()})
+				} else {
+					w.hin = append(w.hin, randBuf(r.Chance(1, 3)))
+				}
+			}
+			depth--
+			return w
+		}
 		data := append([]byte{}, d...)
 		if r.Intn(10) < corruptP {
 			switch r.Intn(4) {
@@ -1012,47 +1191,79 @@ func randomCase(r *hx.Rand) caseSpec {
 
 // ---------------------------------------------------------------- shrinking
 
+// variants returns structurally smaller versions of a buffer.
+func variants(b bufSpec) []bufSpec {
+	var res []bufSpec
+	switch b.kind {
+	case 'W':
+		res = append(res, *b.inner) // without its own handler
+		for i := range b.hin {
+			nb := b
+			nb.hin = append(append([]bufSpec{}, b.hin[:i]...), b.hin[i+1:]...)
+			res = append(res, nb)
+		}
+		for _, v := range variants(*b.inner) {
+			nb, vv := b, v
+			nb.inner = &vv
+			res = append(res, nb)
+		}
+		for i := range b.hin {
+			for _, v := range variants(b.hin[i]) {
+				nb := b
+				nb.hin = append([]bufSpec{}, b.hin...)
+				nb.hin[i] = v
+				res = append(res, nb)
+			}
+		}
+	case 'C', 'R':
+		for ii := range b.items {
+			nb := b
+			if ii+1 < len(b.items) && !b.items[ii].fail && !b.items[ii+1].fail {
+				// merge two data items
+				nb.items = append(append([]item{}, b.items[:ii]...), item{data: append(append([]byte{}, b.items[ii].data...), b.items[ii+1].data...)})
+				nb.items = append(nb.items, b.items[ii+2:]...)
+			} else if b.items[ii].fail {
+				nb.items = append(append([]item{}, b.items[:ii]...), b.items[ii+1:]...)
+			} else {
+				continue
+			}
+			res = append(res, nb)
+		}
+	}
+	return res
+}
+
 func shrinkCase(c caseSpec, fails func(caseSpec) bool) caseSpec {
 	for again := true; again; {
 		again = false
-		// drop a handler answer
+		var cands []caseSpec
 		for i := range c.resps {
 			cand := c
 			cand.resps = append(append([]bufSpec{}, c.resps[:i]...), c.resps[i+1:]...)
-			if fails(cand) {
-				c, again = cand, true
-				break
+			cands = append(cands, cand)
+		}
+		for _, v := range variants(c.base) {
+			cand := c
+			cand.base = v
+			cands = append(cands, cand)
+		}
+		for i := range c.resps {
+			if c.resps[i].kind == 'F' {
+				continue
 			}
-		}
-		if again {
-			continue
-		}
-		// drop or merge items of scripts
-		bufs := append([]bufSpec{c.base}, c.resps...)
-		for bi, b := range bufs {
-			for ii := range b.items {
-				nb := b
-				nb.items = append(append([]item{}, b.items[:ii]...), b.items[ii+1:]...)
-				if ii+1 < len(b.items) && !b.items[ii].fail && !b.items[ii+1].fail {
-					// merge instead of dropping data
-					nb.items = append(append([]item{}, b.items[:ii]...), item{data: append(append([]byte{}, b.items[ii].data...), b.items[ii+1].data...)})
-					nb.items = append(nb.items, b.items[ii+2:]...)
-				} else if !b.items[ii].fail {
+			for _, v := range variants(c.resps[i]) {
+				if v.kind == 'F' {
 					continue
 				}
 				cand := c
-				if bi == 0 {
-					cand.base = nb
-				} else {
-					cand.resps = append([]bufSpec{}, c.resps...)
-					cand.resps[bi-1] = nb
-				}
-				if fails(cand) {
-					c, again = cand, true
-					break
-				}
+				cand.resps = append([]bufSpec{}, c.resps...)
+				cand.resps[i] = v
+				cands = append(cands, cand)
 			}
-			if again {
+		}
+		for _, cand := range cands {
+			if fails(cand) {
+				c, again = cand, true
 				break
 			}
 		}
@@ -1061,6 +1272,10 @@ func shrinkCase(c caseSpec, fails func(caseSpec) bool) caseSpec {
 }
 
 // ---------------------------------------------------------------- the test
+
+// oracleOnly: cases the model does not cover (negative offsets, stacked error handlers); they are
+// run on the real code and held against the oracle only.
+func oracleOnly(c caseSpec) bool { return strings.HasPrefix(c.op, "x") || c.nested() }
 
 type pending struct {
 	name string
@@ -1142,7 +1357,7 @@ func TestC16(t *testing.T) {
 	handle := func(name string, c caseSpec) {
 		o := runReal(c)
 		nontrivial := len(o.h.log) > 0 && o.e.opens > 1
-		run.Case([]string{c.line()}, nontrivial, model != nil && !strings.HasPrefix(c.op, "x"))
+		run.Case([]string{c.line()}, nontrivial, model != nil && !oracleOnly(c))
 		run.Count("op:" + strings.SplitN(c.op, ":", 2)[0])
 		run.Count(fmt.Sprintf("base:%c", c.base.kind))
 		n := len(o.h.log)
@@ -1160,10 +1375,19 @@ func TestC16(t *testing.T) {
 		default:
 			run.Count("outcome:stopped-early")
 		}
-		if strings.HasPrefix(c.op, "x") {
+		if oracleOnly(c) {
 			run.Count("oracle-only")
-			if what, detail := oracle(c, o); what != "" && run.Findings() < 20 {
-				run.Report(hx.Finding{Kind: "oracle", What: what, Detail: detail, Case: name, Script: []string{c.line()}, Impl: []string{o.reply}})
+			if c.nested() {
+				run.Count("stacked-handlers")
+			}
+			if what, _ := oracle(c, o); what != "" && run.Findings() < 20 {
+				small := shrinkCase(c, func(cc caseSpec) bool {
+					w, _ := oracle(cc, runReal(cc))
+					return w == what
+				})
+				so := runReal(small)
+				_, detail := oracle(small, so)
+				run.Report(hx.Finding{Kind: "oracle", What: what, Detail: detail, Case: name + "/shrunk", Script: []string{small.line()}, Impl: []string{so.reply}})
 			}
 			return
 		}
@@ -1189,7 +1413,7 @@ func TestC16(t *testing.T) {
 			t.Logf("replay %s: oracle=%q %s agree=%v", name, what, detail, model == nil || mr == o.reply)
 			if what != "" {
 				run.Report(hx.Finding{Kind: "oracle", What: what, Detail: detail, Case: name, Script: []string{line}, Impl: []string{o.reply}, Model: []string{mr}})
-			} else if model != nil && mr != o.reply && !strings.HasPrefix(c.op, "x") {
+			} else if model != nil && mr != o.reply && !oracleOnly(c) {
 				run.Report(hx.Finding{Kind: "disagreement", What: "model/implementation differ", Detail: fmt.Sprintf("impl=%q model=%q", o.reply, mr),
 					Case: name, Script: []string{line}, Impl: []string{o.reply}, Model: []string{mr}})
 			}
